@@ -57,6 +57,49 @@ def setup(tier):
     DIM_LEAVES = sorted(m.Dimension._by_name)
 
 
+def enumerate_cases(tier):
+    return [{"k": "pairs-exhaustive"}]
+
+
+def _run_pairs(out):
+    """every ordered pair of registered (named) units: a*b is b*a, a/b is (b/a)**-1,
+    (a*b)/b is a, a*b has the merged factors of the model"""
+    m = SNAP.m
+    names = [n for n in UNIT_NAMES]
+    units = [SNAP.units[n] for n in names]
+    structs = [SNAP.structure[n] for n in names]
+    n_pairs = 0
+    for i, a in enumerate(units):
+        for j in range(i, len(units)):
+            b = units[j]
+            n_pairs += 1
+            ab, ba = a * b, b * a
+            q1, q2 = a / b, (b / a) ** -1
+            mv = model.m_mul(structs[i], structs[j])
+            mixed = len(set(structs[i][1]) | set(structs[j][1])) > 1
+            if mixed:
+                # prefixes of different bases: the laws hold for the numeric scale only
+                for tag, x, y in (("pair-commute", ab, ba), ("pair-inverse", q1, q2)):
+                    sx, sy = float(x.prefix.quantify()), float(y.prefix.quantify())
+                    if dict(x.factors) != dict(y.factors) or abs(sx - sy) > 1e-9 * max(abs(sx), abs(sy)):
+                        out.fail(f"C02:unit:{tag}:mixed-scale", f"{names[i]} and {names[j]}: the two spellings differ in scale ({sx!r} vs {sy!r}) or factors")
+                continue
+            if ab is not ba:
+                out.fail("C02:unit:pair-commute", f"{names[i]} * {names[j]} is not {names[j]} * {names[i]}")
+            if q1 is not q2:
+                out.fail("C02:unit:pair-inverse", f"{names[i]} / {names[j]} is not ({names[j]} / {names[i]})**-1")
+            got = SNAP.describe(ab)
+            if got[0] != mv[0] or any(type(e) is not int for e in got[0].values()):
+                out.fail("C02:unit:pair-factors", f"{names[i]} * {names[j]}: factors {got[0]} != model {mv[0]}")
+            if (ab / b) is not a:
+                out.fail("C02:unit:pair-cancel", f"({names[i]} * {names[j]}) / {names[j]} is not {names[i]}")
+        if len(out.failures) > 30:
+            break
+    out.classes.append("pairs-exhaustive")
+    out.nontrivial = "pairs-exhaustive"
+    out.sample = {"ordered_pairs_of_named_units": n_pairs}
+
+
 def budget(tier):
     if tier == "quick":
         return {"examples": 1500, "shards": 1}
@@ -360,6 +403,9 @@ def _eval_side(kind, t, out, tag):
 
 def run_case(case) -> core.Outcome:
     out = core.Outcome()
+    if isinstance(case, dict) and case.get("k") == "pairs-exhaustive":
+        _run_pairs(out)
+        return out
     try:
         kind, a, b = case["k"], case["a"], case["b"]
         if kind not in ("unit", "dim", "p10", "p2"):
